@@ -28,6 +28,11 @@ const (
 	NoOptimize byte = iota
 )
 
+// maxProgramSize is the largest number of bytes of bytecode (in the main
+// program, and in each function), and the largest number of constants,
+// which can be addressed by the 16-bit operands of our instructions.
+const maxProgramSize = 65536
+
 // Eval is our public-facing structure which stores our state.
 type Eval struct {
 	// Script holds the script the user submitted in our constructor.
@@ -146,6 +151,21 @@ func (e *Eval) Prepare(flags ...[]byte) error {
 	//
 	if err != nil {
 		return err
+	}
+
+	//
+	// The operands of our instructions - jump-targets, indexes into
+	// the constant-pool, and counts of arguments - are sixteen bits
+	// wide.  A program which is too large for that would have them
+	// silently truncated, and do something other than what was written.
+	//
+	if len(e.instructions) > maxProgramSize || len(e.constants) > maxProgramSize {
+		return fmt.Errorf("the script is too large to compile")
+	}
+	for name, fun := range e.functions {
+		if len(fun.Bytecode) > maxProgramSize {
+			return fmt.Errorf("the function %s is too large to compile", name)
+		}
 	}
 
 	//
